@@ -120,8 +120,15 @@ def run(ctx, rep):
     import c12
     c04.position_rules(ctx, rep, "C16")
     c12.content_untouched(ctx, rep, "P0", "C16")
+    # ---- W: the name ranges themselves (grammar wiring)
+    rep.rule("W", "C04 W2 re-evaluated for the name ranges: every symbol_range spans exactly the name token(s) of its node")
+    import common_g
+    nW, _ = common_g.emit(ctx, rep, "C16", {"range"}, "W", r"\|symbol_range$")
+    rep.floor("W", "symbol_range wiring obligations", nW, 15)
     # ---- Q4: traversal obligations shared with C15
     import c15
     c15.symbol_walker_rules(ctx, rep, "C16")
+    rep.rule("V5", "inherits C15 V5: find_symbol asks the predicate in the walker's order from the first symbol on and returns the first match")
+    c15.wrapper_rules(ctx, rep, "C16")
     rep.assumptions += ["TB-1 rustc MIR", "TB-4 tabulator", "the name range itself is exact (C04 W2)"]
     rep.not_decided.append("line / column arithmetic for multi-byte text and CRLF inside the line-col crate (TB-3)")
